@@ -313,3 +313,35 @@ Example c06_linear_nonvacuous :
                 c06_integrate false g [3; 4] (c06_with_data a [5; 6; 7; 8]) = C06_ok ry /\
                 c06_data rx = [11; 25] /\ c06_data ry = [39; 53].
 Proof. eexists. eexists. split; [vm_compute; reflexivity|]. split; [vm_compute; reflexivity|]. split; reflexivity. Qed.
+
+(* ------------------------------------------------------------------------- *)
+(* the current tree (c06_integrate_cur = name check first)                      *)
+
+(* node- and edge-dimensioned data are rejected, whatever the element counts and leading dims *)
+Lemma c06_reject_cur g areas a :
+  c06_shape a <> [] -> (last (c06_dims a) 3 = 1 \/ last (c06_dims a) 3 = 2) ->
+  forall r, c06_integrate_cur g areas a <> C06_ok r.
+Proof.
+  intros Hne H r E. destruct (c06_reject_repaired g areas a Hne H) as [H1|H1];
+    unfold c06_integrate_cur in E; rewrite H1 in E; discriminate.
+Qed.
+
+(* whatever is integrated has a last dimension that is not named n_node / n_edge and has n_face entries *)
+Lemma c06_accept_cur g areas a r :
+  c06_integrate_cur g areas a = C06_ok r ->
+  last (c06_dims a) 3 <> 1 /\ last (c06_dims a) 3 <> 2 /\ last (c06_shape a) 0 = c06_nface g.
+Proof.
+  intros E. pose proof (c06_integrate_ok_inv _ _ _ _ _ E) as (Hl & Hne & _).
+  split; [|split; [|exact Hl]]; intros H;
+    [destruct (c06_reject_repaired g areas a Hne (or_introl H)) as [H1|H1]
+    |destruct (c06_reject_repaired g areas a Hne (or_intror H)) as [H1|H1]];
+    unfold c06_integrate_cur in E; rewrite H1 in E; discriminate.
+Qed.
+
+Example c06_reject_cur_nonvacuous :
+  c06_integrate_cur {| c06_nface := 4; c06_nnode := 4; c06_nedge := 6 |} [3; 3; 3; 3]
+     {| c06_shape := [4]; c06_dims := [1]; c06_name := 7; c06_grid := 9; c06_data := [1; 2; 3; 4] |} = C06_node_error
+  /\ exists r, c06_integrate_cur {| c06_nface := 4; c06_nnode := 4; c06_nedge := 6 |} [3; 3; 3; 3]
+     {| c06_shape := [4]; c06_dims := [0]; c06_name := 7; c06_grid := 9; c06_data := [1; 2; 3; 4] |} = C06_ok r
+     /\ c06_data r = [30].
+Proof. split; [reflexivity|]. eexists. split; [vm_compute; reflexivity|reflexivity]. Qed.
